@@ -112,7 +112,9 @@ def _grad_checks(ctx, table, case, fam, way, d, builder, x, gexp, extra="", fd_o
     if fd_ok:
         st2, _, _ = fc.call(lambda: dist.enable_FD())
         if st2 == "value":
-            ctx.case(("gradFD", fc.case_id(case), way, extra, geom), facet="gradient_fd")
+            # Cauchy / SmoothedLaplace / Uniform override gradient(): the FD flag has no effect there (trivial repeat)
+            ctx.case(("gradFD", fc.case_id(case), way, extra, geom), nontrivial=fam not in ("Cauchy", "SmoothedLaplace", "Uniform"),
+                     facet="gradient_fd")
             judge(ctx, case, _sig("gradientFD", fam, way, d, case, extra), _outcome(table, tfam, False, geom, True),
                   fc.call(lambda: dist.gradient(np.array(x))), gexp, d, fd=True, logf=logf, tag="%s/%s/FD" % (fam, way.split("+")[0]))
 
